@@ -626,3 +626,209 @@ Proof.
   destruct (negb (is_nil (unsubq s))); [inversion De; exact I|].
   destruct (tickp s); [inversion De; exact I|discriminate].
 Qed.
+
+(* ------------------------------------------------------------------ *)
+(* main theorems                                                       *)
+(* ------------------------------------------------------------------ *)
+
+Lemma good_tick : forall s, good s -> good (step s ETick).
+Proof.
+  intros s [W [N A]]. split; [apply wf_step; exact W|]. split.
+  - exact N.
+  - exact A.
+Qed.
+Lemma drain_bound_tick : forall s, drain_bound (step s ETick) = drain_bound s.
+Proof. reflexivity. Qed.
+
+(* a live subscriber stays live while the system goroutines run, unless an
+   Unsubscribe for it is waiting *)
+Definition keeps (s : st) (i : nat) : Prop := liveb s i = true /\ ~ In i (unsubq s).
+
+Lemma keeps_step : forall s e x, wf s -> sys_event e \/ e = ETick -> keeps s x -> keeps (step s e) x.
+Proof.
+  intros s e x W Se K.
+  break_step s e; try (destruct Se as [Se|Se]; [destruct Se|discriminate]; fail); auto;
+    destruct K as [L U]; unfold keeps, liveb in *; simpl.
+  - (* Unsubscribe(i) processed, i in the map *)
+    assert (x <> i) by (intro; subst; apply U; rewrite Uq; left; reflexivity).
+    rewrite nth_error_upd_other by congruence. split.
+    + apply andb_true_iff in L. destruct L as [L1 L2]. rewrite L2, andb_true_r.
+      apply memn_In. apply remn_In. split; [apply memn_In; exact L1|exact H].
+    + intro C. apply U. rewrite Uq. right. exact C.
+  - split; [exact L|]. intro C. apply U. rewrite Uq. right. exact C.
+  - split; [|exact U]. rewrite (liveb_recv s cur msg x _ eq_refl). exact L.
+Qed.
+
+Lemma keeps_run : forall ks s x, wf s -> Forall (fun e => sys_event e \/ e = ETick) ks ->
+  keeps s x -> keeps (run s ks) x.
+Proof.
+  induction ks as [|e t IH]; intros s x W F K; simpl; [exact K|].
+  inversion F; subst. apply IH; [apply wf_step; exact W|assumption|].
+  apply keeps_step; assumption.
+Qed.
+
+(* an Unsubscribe call is either still waiting or has returned *)
+Definition ret_or_queued (s : st) (i : nat) : Prop := In i (unsubq s) \/ In (TUnsubRet i) (trace s).
+Lemma roq_step : forall s e x, ret_or_queued s x -> ret_or_queued (step s e) x.
+Proof.
+  intros s e x K.
+  break_step s e; auto; destruct K as [K|K]; unfold ret_or_queued; simpl; auto;
+    try (left; apply in_or_app; left; exact K; fail).
+  - rewrite Uq in K. destruct K as [K|K]; [subst; right; right; left; reflexivity|left; exact K].
+  - rewrite Uq in K. destruct K as [K|K]; [subst; right; left; reflexivity|left; exact K].
+Qed.
+Lemma roq_run : forall ks s x, ret_or_queued s x -> ret_or_queued (run s ks) x.
+Proof. induction ks as [|e t IH]; intros s x K; simpl; [exact K|]. apply IH. apply roq_step. exact K. Qed.
+
+Lemma sys_weaken : forall ks, Forall sys_event ks -> Forall (fun e => sys_event e \/ e = ETick) ks.
+Proof. intros ks F. eapply Forall_impl; [|exact F]. intros a H. left. exact H. Qed.
+
+(* C27_converge with its liveness half: when no subscriber in the map is
+   stalled (each one is receiving or cancelled) and the stream is alive, the
+   canonical continuation after the next tick comes to rest within
+   drain_bound steps, every live subscriber has then received exactly the list
+   the stream last produced, subscribers that were live stay live, and no
+   Unsubscribe call is left waiting. *)
+Theorem converge_live : forall evs,
+  let s0 := run init evs in
+  aliveb s0 = true -> no_stallb s0 = true ->
+  let s1 := drain (drain_bound s0) (step s0 ETick) in
+  quiescentb s1 = true /\
+  (forall i, liveb s1 i = true -> last_recv s1 i = Some (registered s0)) /\
+  (forall i, liveb s0 i = true -> ~ In i (unsubq s0) -> liveb s1 i = true) /\
+  unsubq s1 = [].
+Proof.
+  intros evs s0 A N s1.
+  assert (W0 : wf s0) by (apply wf_run; exact wf_init).
+  assert (G : good (step s0 ETick)) by (apply good_tick; split; [exact W0|split; assumption]).
+  assert (Q : quiescentb s1 = true).
+  { apply drain_quiescent; [exact G|]. rewrite <- (drain_bound_tick s0). apply mu_bound. apply G. }
+  destruct (drain_is_sys_run (drain_bound s0) (step s0 ETick)) as [ks [F E]].
+  fold s1 in E.
+  split; [exact Q|]. split; [|split].
+  - intros i L. rewrite E in *. exact (converge_safe evs ks F Q i L).
+  - intros i L U. assert (K : keeps s1 i).
+    { rewrite E. apply keeps_run; [apply wf_step; exact W0|apply sys_weaken; exact F|].
+      split; [exact L|exact U]. }
+    apply K.
+  - apply quiescentb_spec in Q. tauto.
+Qed.
+
+(* C27_unsub: a subscriber whose context is cancelled before Unsubscribe is
+   called (calcium.WatchServiceStatus) -- if no OTHER subscriber is stalled, the
+   call returns, the subscriber is removed from the map and its channel is closed. *)
+Theorem unsub_completes : forall evs i,
+  let s0 := run init evs in
+  i < length (clients s0) ->
+  let s := run s0 [ECancel i; EUnsubscribe i] in
+  aliveb s = true -> no_stallb s = true ->
+  let s1 := drain (drain_bound s) s in
+  quiescentb s1 = true /\ In (TUnsubRet i) (trace s1) /\ ~ In i (subs s1) /\
+  exists c, nth_error (clients s1) i = Some c /\ cclosed c = true.
+Proof.
+  intros evs i s0 Li s A N s1.
+  assert (W : wf s) by (apply wf_run; apply wf_run; exact wf_init).
+  assert (G : good s) by (split; [exact W|split; assumption]).
+  assert (Q : quiescentb s1 = true) by (apply drain_quiescent; [exact G|apply mu_bound; exact W]).
+  destruct (drain_is_sys_run (drain_bound s) s) as [ks [F E]]. fold s1 in E.
+  assert (W1 : wf s1) by (rewrite E; apply wf_run; exact W).
+  assert (K : ret_or_queued s1 i).
+  { rewrite E. apply roq_run. left. unfold s. simpl. rewrite upd_length.
+    apply Nat.ltb_lt in Li. rewrite Li. simpl. apply in_or_app. right. left. reflexivity. }
+  destruct K as [K|K].
+  { apply quiescentb_spec in Q. destruct Q as [_ [_ [Q _]]]. rewrite Q in K. destruct K. }
+  destruct (wf_ret s1 W1 i K) as [L1 L2].
+  split; [exact Q|]. split; [exact K|]. split; [exact L2|].
+  destruct (nth_error (clients s1) i) as [c|] eqn:Nc; [|apply nth_error_None in Nc; lia].
+  exists c. split; [reflexivity|]. apply (wf_closed s1 W1 i c Nc). exact L2.
+Qed.
+
+(* C27_latest *)
+Theorem latest_holds : forall evs,
+  let s := run init evs in
+  deliveries_ok (trace s) /\ (forall i, recv_of s i = deliveries_of i (trace s)).
+Proof.
+  intros evs s. assert (W : wf s) by (apply wf_run; exact wf_init).
+  split; [apply (wf_deliv s W)|apply (wf_recv s W)].
+Qed.
+
+(* same field values except the pending tick *)
+Definition same_but_tick (s s' : st) : Prop :=
+  clients s' = clients s /\ subs s' = subs s /\ src s' = src s /\ unsubq s' = unsubq s /\
+  latest s' = latest s /\ loop s' = loop s /\ trace s' = trace s.
+
+Lemma stall_blocks_step : forall s cur msg e,
+  loop s = LDispatch cur msg -> stalledb (clients s) cur = true ->
+  sys_event e \/ e = ETick -> same_but_tick s (step s e).
+Proof.
+  intros s cur msg e Lp St Se. unfold same_but_tick.
+  destruct e as [it| |k r|i b|i|i|b|ch];
+    try (destruct Se as [Se|Se]; [destruct Se|discriminate]).
+  - simpl. repeat split; reflexivity.
+  - simpl. rewrite Lp. repeat split; auto.
+  - simpl. rewrite Lp. unfold dispatch_one. unfold stalledb in St.
+    destruct (nth_error (clients s) cur) as [c|]; [|discriminate].
+    apply andb_true_iff in St. destruct St as [S1 S2].
+    apply negb_true_iff in S1. apply negb_true_iff in S2. rewrite S1, S2. simpl. repeat split; auto.
+Qed.
+
+(* the general form of the defect: while dispatch waits on a subscriber that
+   neither receives nor is cancelled, no amount of ticks or system steps
+   delivers anything to anybody, consumes a stream item, or completes an
+   Unsubscribe *)
+Theorem stall_blocks : forall ks s cur msg,
+  loop s = LDispatch cur msg -> stalledb (clients s) cur = true ->
+  Forall (fun e => sys_event e \/ e = ETick) ks -> same_but_tick s (run s ks).
+Proof.
+  induction ks as [|e t IH]; intros s cur msg Lp St F; simpl.
+  - unfold same_but_tick. repeat split; reflexivity.
+  - inversion F; subst.
+    destruct (stall_blocks_step s cur msg e Lp St H1) as [A [B [C [D [E0 [G T]]]]]].
+    destruct (IH (step s e) cur msg) as [A' [B' [C' [D' [E' [G' T']]]]]].
+    + congruence.
+    + rewrite A. exact St.
+    + exact H2.
+    + unfold same_but_tick. repeat split; congruence.
+Qed.
+
+(* the unrestricted statement of C27 *)
+Definition C27_full : Prop := forall evs,
+  let s0 := run init evs in
+  aliveb s0 = true ->
+  let s1 := drain (drain_bound s0) (step s0 ETick) in
+  (forall i, liveb s1 i = true -> last_recv s1 i = Some (registered s0)) /\ unsubq s1 = [].
+
+(* subscriber 0 (first in map order) stalls; subscriber 1 reads; subscriber 2's
+   Unsubscribe is called; the registered set changes to [1;2] *)
+Definition witness : list event :=
+  [ESrc (Item [1]); ESubscribe 0 false; ESubscribe 1 true; ESubscribe 2 true;
+   ELoop BSrc; EUnsubscribe 2; ESrc (Item [1;2])].
+
+Theorem full_refuted : ~ C27_full.
+Proof.
+  intro H. specialize (H witness). cbv zeta in H.
+  assert (A : aliveb (run init witness) = true) by (vm_compute; reflexivity).
+  destruct (H A) as [_ H2]. vm_compute in H2. discriminate.
+Qed.
+
+(* ... and it stays that way for ever: subscriber 1 is live, never gets [1;2],
+   and the Unsubscribe of 2 never returns *)
+Theorem witness_starves : forall ks, Forall (fun e => sys_event e \/ e = ETick) ks ->
+  let s := run (run init witness) ks in
+  liveb s 1 = true /\ last_recv s 1 = None /\ registered s = [1;2] /\ unsubq s = [2].
+Proof.
+  intros ks F s.
+  destruct (stall_blocks ks (run init witness) 0 [1]) as [A [B [C [D [E0 [G T]]]]]];
+    [vm_compute; reflexivity|vm_compute; reflexivity|exact F|].
+  fold s in A, B, C, D, E0, G, T.
+  unfold liveb, last_recv, registered. rewrite A, B, C, D, E0. vm_compute. auto.
+Qed.
+
+(* the hypotheses of converge_live and unsub_completes are satisfiable *)
+Example converge_live_nonvacuous :
+  let evs := [ESrc (Item [1]); ESubscribe 0 true; ESubscribe 1 true; ELoop BSrc;
+              EDispatch true; EDispatch true; ESrc (Item [1;2])] in
+  let s0 := run init evs in
+  aliveb s0 = true /\ no_stallb s0 = true /\ liveb s0 0 = true /\ liveb s0 1 = true /\
+  last_recv (drain (drain_bound s0) (step s0 ETick)) 1 = Some [1;2].
+Proof. vm_compute. auto. Qed.
